@@ -425,7 +425,7 @@ def main(tier):
                              f.span.loc())
                 continue
             check_exact(f, r_use, it, exp, RANGE[out_m] if out_m else A.IntSet.all(),
-                        "operator " + tr.split("::")[-1], allow_multiplier=(tr == "core::ops::Mul"))
+                        "operator " + tr.split("::")[-1])
             continue
         # ---- Sum impls and the inherent sum: fold of Add from zero
         if tr == "core::iter::Sum" or (name == "sum" and out_m):
